@@ -18,7 +18,7 @@ TRUSTED = [
     'layer names are mapped to their rank in Python string order; integer costs',
 ]
 THEOREMS = ['coord_bij', 'groups_by_coordinates', 'stage_agrees', 'stage_balance', 'factor_worker_spec', 'src_spec',
-            'grad_workers_spec', 'peer_group_reuse', 'new_group_same_order', 'new_group_order_old_refuted']
+            'grad_workers_spec', 'peer_group_reuse', 'new_group_same_order', 'new_group_order_old_refuted', 'neox_greedy_in_relation']
 NOTES = 'new_group_same_order is proved for the repaired constructor (fix D5); the pre-repair trace is refuted for P=D=M=2.'
 
 
